@@ -156,6 +156,7 @@ def expectS (cfg : MpscUB.Cfg) (s : State) (h : Nat) : Exp :=
   | .lenCons => ld .consumed "rlx" s.consumed
   | .closedLoad => ld .rdrop "acq" (b2n s.rdrop)
   | .scLoad => ld .senders "rlx" s.ch.senders
+  | .afterClose => .tau
   | .fin =>
     match MpscUB.cNext s.ch with
     | some l => chainAct cfg.chain s.ch 0 l
@@ -200,6 +201,7 @@ def expectR (cfg : MpscUB.Cfg) (s : State) : Exp :=
   | .iscSenders => ld .senders "acq" s.ch.senders
   | .scLoad => ld .senders "rlx" s.ch.senders
   | .convLoad => ld .rclosed "rlx" (b2n s.rclosed)
+  | .release => .tau
   | .fin =>
     match MpscUB.cNext s.ch with
     | some l => chainAct cfg.chain s.ch 0 l
